@@ -36,6 +36,12 @@ class Prop:
             sc["d"] = rng.choice([5, 10, 20, 30, 60])
         if form == "throttle_with_mapper":
             sc["pool"] = [ctx.new_source("cold", prefix="p", maxn=2, positive_first=True) for _ in range(2)]
+            for s_ in ctx.sources[-2:]:
+                r = rng.random()
+                if r < 0.15:
+                    s_["kind"] = "sync"  # a throttle observable that fires (or ends) inside its own subscribe(): an open gate
+                elif r < 0.3:
+                    s_["kind"] = "syncthen"  # ... or fires there and again later (a BehaviorSubject as gate)
         if form == "sample_sampler":
             sc["sampler"] = ctx.new_source(rng.choice(["cold", "hot"]), prefix="p", maxn=6)
         sc["sources"] = ctx.sources
